@@ -27,6 +27,14 @@ Proof.
   unfold create_account, create_object. destruct (lookup s a); rewrite ?set_obj_calls, push_calls; apply cached_calls.
 Qed.
 
+Lemma inc_state_calls s a k d : calls (inc_state s a k d) = calls s.
+Proof. apply set_state_calls. Qed.
+Lemma bank_send_calls s f t amt : calls (bank_send s f t amt) = calls s.
+Proof.
+  unfold bank_send. destruct (cache s); [|reflexivity]. destruct (_ || _); [reflexivity|].
+  rewrite !set_balance_calls. reflexivity.
+Qed.
+
 Lemma run_calls_simple p s :
   match p with PFrame _ _ | PPrecompile _ _ => True | _ => calls (run p s) = calls s end.
 Proof.
@@ -50,6 +58,8 @@ Proof.
     + sdb_simp. rewrite push_calls. unfold access_addr. destruct (al _ _); [reflexivity|]. sdb_simp. apply push_calls.
   - unfold touch. sdb_simp. apply cached_calls.
   - unfold read_obs, read_state. sdb_simp. destruct (lookup s a); [|reflexivity]. rewrite set_obj_calls. apply cached_calls.
+  - apply bank_send_calls.
+  - apply inc_state_calls.
 Qed.
 
 Lemma rrun_calls_simple mx p r :
@@ -60,53 +70,115 @@ Proof.
   - destruct (r_accs r a); reflexivity.
   - destruct (r_accs r a); [destruct (_ || _)|]; reflexivity.
   - destruct (_ <? _); reflexivity.
+  - unfold r_send. destruct (_ || _); reflexivity.
 Qed.
-
 
 Lemma op_ok_cf s s' : op_ok s s' -> WFJ s -> cf s' = cf s.
 Proof.
   intros H HW. destruct (H HW) as (_&(_&_&C&_)&_). rewrite C. unfold unwind. symmetry. apply unwind_k_cf.
 Qed.
-
-(** ---- the bank sends of a precompile body ---- *)
-Fixpoint wf_sends (l : list (addr * addr * Z)) (r : rstate) : bool :=
-  match l with
-  | [] => true
-  | x :: t => wf_send r x && wf_sends t (r_send r (fst (fst x)) (snd (fst x)) (snd x))
-  end.
-Definition r_sends (l : list (addr * addr * Z)) (r : rstate) : rstate :=
-  fold_left (fun r x => r_send r (fst (fst x)) (snd (fst x)) (snd x)) l r.
-
-Lemma wf_precompile mx sends fails r :
-  wf mx (PPrecompile sends fails) r =
-  (if mx <? r_calls r + 1 then true
-   else if r_pending (r_with_calls r (r_calls r + 1)) then true
-   else wf_sends sends (r_flush (r_with_calls r (r_calls r + 1)))).
+Lemma op_ok_txs s s' : op_ok s s' -> WFJ s -> txs s' = txs s.
 Proof.
-  simpl. destruct (mx <? r_calls r + 1); [reflexivity|].
-  destruct (r_pending (r_with_calls r (r_calls r + 1))); [reflexivity|].
-  generalize (r_flush (r_with_calls r (r_calls r + 1))). induction sends as [|x t IH]; intros r0; simpl; [reflexivity|].
-  rewrite IH. reflexivity.
+  intros H HW. destruct (H HW) as (_&(_&T&_)&_). rewrite T. unfold unwind. symmetry. apply unwind_k_txs.
 Qed.
 
-Lemma rrun_precompile mx sends fails r :
-  rrun mx (PPrecompile sends fails) r =
-  (let r0 := r_with_calls r (r_calls r + 1) in
-   if mx <? r_calls r0 then r0 else if r_pending r0 then r0
-   else if fails then r0 else r_sends sends (r_flush r0)).
-Proof. reflexivity. Qed.
+Lemma unwind_len' n s : (n <= length (journal (unwind n s)))%nat -> length (journal (unwind n s)) = n.
+Proof.
+  intros H. unfold unwind in *. rewrite unwind_k_len in * by lia. lia.
+Qed.
 
+(** ---- the cache context, once created, stays ---- *)
+Lemma undo_cache e s : cache s <> None -> cache (undo e s) <> None.
+Proof.
+  intros H. destruct e; try exact H;
+    try (match goal with |- cache (undo ?E s) <> None => pose proof (undo_mut E s) as Hm; cbv beta iota in Hm; rewrite Hm, mut_cache; exact H end).
+  simpl. destruct (repaired (cf s)); sdb_simp; discriminate.
+Qed.
+Lemma pop_undo_cache s : cache s <> None -> cache (pop_undo s) <> None.
+Proof.
+  intros H. unfold pop_undo. destruct (journal s) as [|e r]; [exact H|].
+  destruct (dirtied e); sdb_simp; apply undo_cache; exact H.
+Qed.
+Lemma unwind_k_cache k : forall s, cache s <> None -> cache (unwind_k k s) <> None.
+Proof. induction k; intros s H; simpl; [exact H|]. apply IHk, pop_undo_cache, H. Qed.
+
+Lemma set_obj_cache s a o : cache (set_obj s a o) = cache s. Proof. reflexivity. Qed.
+Lemma get_or_new_cache s a : cache (get_or_new s a) = cache s.
+Proof. unfold get_or_new. destruct (lookup s a); [apply cached_cache|]. rewrite set_obj_cache. apply push_cache. Qed.
+Lemma set_balance_cache s a b : cache (set_balance s a b) = cache s.
+Proof. unfold set_balance. rewrite set_obj_cache, push_cache. apply get_or_new_cache. Qed.
+Lemma set_nonce_cache s a b : cache (set_nonce s a b) = cache s.
+Proof. unfold set_nonce. rewrite set_obj_cache, push_cache. apply get_or_new_cache. Qed.
+Lemma set_code_cache s a b : cache (set_code s a b) = cache s.
+Proof. unfold set_code. rewrite set_obj_cache, push_cache. apply get_or_new_cache. Qed.
+Lemma add_balance_cache s a b : cache (add_balance s a b) = cache s.
+Proof. unfold add_balance. destruct (_ =? _); [apply get_or_new_cache | apply set_balance_cache]. Qed.
+Lemma set_state_cache s a k v : cache (set_state s a k v) = cache s.
+Proof. unfold set_state. destruct (_ =? _); rewrite set_obj_cache, ?push_cache; apply get_or_new_cache. Qed.
+Lemma suicide_cache s a : cache (suicide s a) = cache s.
+Proof. unfold suicide. destruct (lookup s a); [|reflexivity]. rewrite set_obj_cache, push_cache. apply cached_cache. Qed.
+Lemma create_account_cache s a : cache (create_account s a) = cache s.
+Proof.
+  unfold create_account, create_object. destruct (lookup s a); rewrite ?set_obj_cache, push_cache; apply cached_cache.
+Qed.
 Lemma bank_send_cache s f t amt : cache s <> None -> cache (bank_send s f t amt) <> None.
 Proof.
   intros H. unfold bank_send. destruct (cache s) as [c|] eqn:Hc; [|contradiction].
-  destruct (_ || _); [rewrite Hc; discriminate|].
-  unfold set_balance, set_obj; sdb_simp. rewrite push_cache.
-  unfold get_or_new. destruct (lookup _ t).
-  - rewrite cached_cache. unfold set_obj; sdb_simp. rewrite push_cache.
-    destruct (lookup _ f); [rewrite cached_cache|unfold set_obj; sdb_simp; rewrite push_cache]; discriminate.
-  - unfold set_obj; sdb_simp. rewrite push_cache. unfold set_obj; sdb_simp. rewrite push_cache.
-    destruct (lookup _ f); [rewrite cached_cache|unfold set_obj; sdb_simp; rewrite push_cache]; discriminate.
+  destruct (_ || _); [rewrite Hc; discriminate|]. rewrite !set_balance_cache. sdb_simp. discriminate.
 Qed.
+
+Lemma run_cache_simple p s :
+  match p with PFrame _ _ | PPrecompile _ _ | OBankSend _ _ _ => True | _ => cache (run p s) = cache s end.
+Proof.
+  destruct p; try exact I; cbn [run].
+  - apply add_balance_cache.
+  - unfold sub_balance. destruct (_ <? _); [apply cached_cache | apply add_balance_cache].
+  - apply set_nonce_cache.
+  - apply set_code_cache.
+  - apply set_state_cache.
+  - unfold selfdestruct. destruct (lookup s a); [|reflexivity].
+    rewrite suicide_cache, add_balance_cache. apply cached_cache.
+  - unfold evm_create. destruct (lookup s a).
+    + destruct (_ || _); [apply cached_cache|]. rewrite set_nonce_cache. apply create_account_cache.
+    + rewrite set_nonce_cache. apply create_account_cache.
+  - unfold add_log. sdb_simp. apply push_cache.
+  - unfold set_refund. sdb_simp. apply push_cache.
+  - unfold sub_refund. destruct (_ <? _); [reflexivity|]. unfold set_refund. sdb_simp. apply push_cache.
+  - unfold access_addr. destruct (al _ _); [reflexivity|]. sdb_simp. apply push_cache.
+  - unfold access_slot. destruct (als _ _ _).
+    + unfold access_addr. destruct (al _ _); [reflexivity|]. sdb_simp. apply push_cache.
+    + sdb_simp. rewrite push_cache. unfold access_addr. destruct (al _ _); [reflexivity|]. sdb_simp. apply push_cache.
+  - unfold touch. sdb_simp. apply cached_cache.
+  - unfold read_obs, read_state. sdb_simp. destruct (lookup s a); [|reflexivity]. rewrite set_obj_cache. apply cached_cache.
+  - apply set_state_cache.
+Qed.
+
+Lemma pc_shell_cache s F fails : (forall s0, cache s0 <> None -> cache (F s0) <> None) -> cache (pc_shell s F fails) <> None.
+Proof.
+  intros HF. unfold pc_shell.
+  assert (H1 : cache (precompile_snapshot s) <> None).
+  { rewrite precompile_snapshot_eq. sdb_simp. rewrite push_cache. unfold with_cache0.
+    destruct (cache s) eqn:E; [rewrite E; discriminate | sdb_simp; discriminate]. }
+  destruct (_ <? _); [apply unwind_k_cache; exact H1|].
+  destruct (flush_fail _); [apply unwind_k_cache; unfold commit_cache_partial; sdb_simp; discriminate|].
+  assert (H2 : cache (F (commit_cache (precompile_snapshot s))) <> None) by (apply HF; unfold commit_cache; sdb_simp; discriminate).
+  destruct fails; [apply unwind_k_cache|]; exact H2.
+Qed.
+
+Lemma run_cache_aux n : forall p s, (psize p <= n)%nat -> cache s <> None -> cache (run p s) <> None.
+Proof.
+  induction n as [|n IH]; intros p s Hn Hc; [destruct p; simpl in Hn; lia|].
+  pose proof (run_cache_simple p s) as H.
+  assert (Hb : forall l s0, (list_sum (map psize l) <= n)%nat -> cache s0 <> None -> cache (run_body l s0) <> None).
+  { induction l as [|x t IHl]; intros s0 Hl H0; [exact H0|]. rewrite run_body_cons. simpl in Hl.
+    apply IHl; [lia|]. apply IH; [lia | exact H0]. }
+  destruct p; try (rewrite H; exact Hc).
+  - cbn [run]. apply bank_send_cache; exact Hc.
+  - cbn [psize] in Hn. rewrite run_frame. destruct reverted; [apply unwind_k_cache|]; apply Hb; auto; lia.
+  - cbn [psize] in Hn. rewrite run_precompile. apply pc_shell_cache. intros s0 H0. apply Hb; [lia | exact H0].
+Qed.
+Lemma run_cache p s : cache s <> None -> cache (run p s) <> None.
+Proof. apply (run_cache_aux (psize p)). lia. Qed.
 
 Lemma bank_send_cf s f t amt : cf (bank_send s f t amt) = cf s.
 Proof.
@@ -116,15 +188,12 @@ Qed.
 Lemma r_send_bl r f t amt : r_bl (r_send r f t amt) = r_bl r.
 Proof. unfold r_send. destruct (_ || _); reflexivity. Qed.
 
-Lemma sim_sends sends : forall s r,
-  R s r -> views s -> cache s <> None -> blocked (cf s) = r_bl r -> wf_sends sends r = true ->
-  R (run_sends sends s) (r_sends sends r) /\ views (run_sends sends s).
+Lemma WFJ_bank_send s f t amt : WFJ s -> WFJ (bank_send s f t amt).
 Proof.
-  induction sends as [|[[f t] amt] rest IH]; intros s r HR HV Hc Hbl Hwf; [split; assumption|].
-  simpl in Hwf. apply andb_true_iff in Hwf as [Hw1 Hw2].
-  destruct (sim_bank_send s r f t amt HR HV Hc Hbl Hw1) as [HR1 HV1].
-  unfold run_sends, r_sends. simpl.
-  apply IH; auto; [apply bank_send_cache; exact Hc | rewrite bank_send_cf, r_send_bl; exact Hbl].
+  intros HW. unfold bank_send. destruct (cache s); [|exact HW]. destruct (_ || _); [exact HW|].
+  match goal with |- WFJ (set_balance (set_balance ?A _ _) _ _) => assert (HA : WFJ A) by (apply WFJ_with_cache; exact HW);
+    destruct (set_balance_ok A f (to_wei (bank_bal (bank_move s0 f t amt) f)) HA) as (_&_&HB) end.
+  match goal with |- WFJ (set_balance ?B _ ?v) => destruct (set_balance_ok B t v HB) as (_&_&HC) end. exact HC.
 Qed.
 
 (** the flush fails in the model exactly when the reference says a blocked account must be credited *)
@@ -141,7 +210,7 @@ Lemma pending_iff s r :
 Proof.
   intros HR Hbl. unfold flush_fail, r_pending. rewrite Hbl. apply find_existsb.
   intros a Ha. rewrite <- Hbl in Ha. unfold fails_at.
-  pose proof (R_acc s r HR a) as Hacc. pose proof (R_base s r HR a Ha) as Hb.
+  pose proof (R_acc s r HR a) as Hacc. pose proof (R_base s r HR a) as Hb.
   destruct (lookup s a) as [o|] eqn:Hl, (r_accs r a) as [x|] eqn:Hx; try contradiction.
   - destruct Hacc as (A1&_&_&A4). rewrite <- A1, <- A4, <- Hb.
     destruct (dirt s a) eqn:Hd; [reflexivity|].
@@ -151,22 +220,6 @@ Proof.
   - destruct (dirt s a); reflexivity.
 Qed.
 
-Lemma r_sends_calls sends : forall r, r_calls (r_sends sends r) = r_calls r.
-Proof.
-  induction sends as [|x t IH]; intros r; [reflexivity|]. unfold r_sends in *. simpl. rewrite IH.
-  unfold r_send. destruct (_ || _); reflexivity.
-Qed.
-
-Lemma bank_send_calls s f t amt : calls (bank_send s f t amt) = calls s.
-Proof.
-  unfold bank_send. destruct (cache s); [|reflexivity]. destruct (_ || _); [reflexivity|].
-  rewrite !set_balance_calls. reflexivity.
-Qed.
-Lemma run_sends_calls sends : forall s, calls (run_sends sends s) = calls s.
-Proof.
-  induction sends as [|x t IH]; intros s; [reflexivity|]. unfold run_sends in *. simpl. rewrite IH.
-  apply bank_send_calls.
-Qed.
 
 (** ---- the invariant of a run ---- *)
 Definition Inv (mx : Z) (s : sdb) (r : rstate) : Prop :=
@@ -182,64 +235,10 @@ Proof.
   split; [exact Hc|]. destruct HL as (_&_&C&_). rewrite <- C. split; [exact HM | exact HB].
 Qed.
 
-Lemma r_sends_bl l : forall r, r_bl (r_sends l r) = r_bl r.
-Proof.
-  induction l as [|x l IH]; intros r; [reflexivity|]. unfold r_sends in *. simpl. rewrite IH. apply r_send_bl.
-Qed.
-
-Lemma sim_precompile mx s r sends fails :
-  Inv mx s r -> wf mx (PPrecompile sends fails) r = true ->
-  Inv mx (precompile_call s sends fails) (rrun mx (PPrecompile sends fails) r).
-Proof.
-  intros (HR&HW&HC&HM&HB) Hwf. pose proof HW as (_&_&Hrep).
-  pose proof (precompile_call_ok s sends fails HW) as (Hlen & HLE & HW').
-  rewrite wf_precompile in Hwf. rewrite rrun_precompile. cbv zeta. simpl r_calls.
-  unfold precompile_call in *. set (n := length (journal s)) in *. set (s1 := precompile_snapshot s) in *.
-  assert (Hc1 : calls s1 = r_calls r + 1) by (unfold s1; rewrite snapshot_calls, HC; reflexivity).
-  assert (J1 : journal s1 = snap_entry s :: journal s) by apply snapshot_journal.
-  rewrite HM, Hc1. rewrite HM, Hc1 in HLE, HW', Hlen.
-  assert (HI : Inv mx s r) by exact (conj HR (conj HW (conj HC (conj HM HB)))).
-  assert (Hrev : forall sX, (n <= length (journal sX))%nat -> le s (unwind n (unwind n sX)) -> le s (unwind n sX)).
-  { intros sX Hl H. pose proof (unwind_len n sX Hl) as Hn. rewrite <- Hn in H at 1. rewrite unwind_id in H. exact H. }
-  destruct (mx <? r_calls r + 1) eqn:Hlim.
-  - apply (Inv_reverted mx s _ r); [exact HI | | exact HW' | rewrite unwind_calls; exact Hc1].
-    apply Hrev; [rewrite J1; simpl; unfold n; lia | exact HLE].
-  - set (r0 := r_with_calls r (r_calls r + 1)) in *.
-    assert (HR1 : R s1 r0) by (apply R_calls, sim_snapshot; exact HR).
-    assert (HB1 : blocked (cf s1) = r_bl r0) by (unfold s1; rewrite snapshot_cf; exact HB).
-    pose proof (pending_iff s1 r0 HR1 HB1) as Hpend.
-    destruct (flush_fail s1) as [af|] eqn:Hff.
-    + (* the pre-run flush fails *)
-      assert (Hp : r_pending r0 = true).
-      { destruct (r_pending r0); [reflexivity|]. destruct Hpend as [_ H]. discriminate (H eq_refl). }
-      rewrite Hp.
-      apply (Inv_reverted mx s _ r); [exact HI | | exact HW' | rewrite unwind_calls; exact Hc1].
-      apply Hrev; [change (journal (commit_cache_partial af s1)) with (journal s1); rewrite J1; simpl; unfold n; lia | exact HLE].
-    + assert (Hp : r_pending r0 = false) by (apply Hpend; reflexivity).
-      rewrite Hp in *.
-      assert (Hrep1 : repaired (cf s1) = true) by (unfold s1; rewrite snapshot_cf; exact Hrep).
-      destruct (sim_flush s1 r0 HR1 Hrep1) as [HRF HCl]. set (sF := commit_cache s1) in *.
-      assert (HVF : views sF) by (eapply views_of_clean; eauto).
-      assert (HcF : cache sF <> None) by (unfold sF, commit_cache; sdb_simp; discriminate).
-      destruct (sim_sends sends sF (r_flush r0) HRF HVF HcF HB1 Hwf) as [HR2 HV2].
-      set (s2 := run_sends sends sF) in *.
-      assert (Hc2 : calls s2 = r_calls r + 1) by (unfold s2; rewrite run_sends_calls; exact Hc1).
-      destruct fails.
-      * apply (Inv_reverted mx s _ r); [exact HI | | exact HW' | rewrite unwind_calls; exact Hc2].
-        apply Hrev; [|exact HLE].
-        assert (HWF : WFJ sF) by (apply WFJ_commit_cache, WFJ_snapshot; exact HW).
-        destruct (run_sends_bop (fun _ => false) sends sF HWF ltac:(intros a Ha; discriminate)) as (es & J2 & _).
-        fold s2 in J2. rewrite J2, app_length. change (journal sF) with (journal s1). rewrite J1. simpl. unfold n. lia.
-      * split; [exact HR2|]. split; [exact HW'|]. split; [rewrite r_sends_calls; exact Hc2|].
-        assert (Hcf : cf s2 = cf s).
-        { apply (op_ok_cf s s2); [|exact HW]. intros _. split; [exact Hlen|]. split; assumption. }
-        rewrite Hcf. split; [exact HM|]. rewrite HB. symmetry. rewrite r_sends_bl. reflexivity.
-Qed.
-
 (** ---- (P4) every well-formed script runs in lock-step with the reference ---- *)
-Lemma sim_simple mx p s r :
-  match p with PFrame _ _ | PPrecompile _ _ => True | _ =>
-    R s r -> wf mx p r = true -> R (run p s) (rrun mx p r) end.
+Lemma sim_simple mx inb p s r :
+  match p with PFrame _ _ | PPrecompile _ _ | OBankSend _ _ _ => True | _ =>
+    R s r -> wf mx inb p r = true -> R (run p s) (rrun mx p r) end.
 Proof.
   destruct p; try exact I; intros HR Hwf; cbn [run rrun].
   - apply sim_add_balance; exact HR.
@@ -257,10 +256,15 @@ Proof.
   - apply (sim_access_slot mx s r a k HR).
   - apply sim_touch; exact HR.
   - apply sim_read_obs; exact HR.
+  - apply (sim_inc_state mx s r a k d HR).
 Qed.
 
-Lemma wf_frame_cons mx p t rv r :
-  wf mx (PFrame (p :: t) rv) r = wf mx p r && wf mx (PFrame t rv) (rrun mx p r).
+Lemma nosend_simple p :
+  match p with PFrame _ _ | PPrecompile _ _ | OBankSend _ _ _ => True | _ => nosend p = true end.
+Proof. destruct p; try exact I; reflexivity. Qed.
+
+Lemma wf_frame_cons mx inb p t rv r :
+  wf mx inb (PFrame (p :: t) rv) r = wf mx false p r && wf mx inb (PFrame t rv) (rrun mx p r).
 Proof. reflexivity. Qed.
 Lemma rrun_frame mx body rv r :
   rrun mx (PFrame body rv) r =
@@ -269,56 +273,145 @@ Proof. reflexivity. Qed.
 Lemma rrun_body_cons mx p t r : rrun_body mx (p :: t) r = rrun_body mx t (rrun mx p r).
 Proof. reflexivity. Qed.
 
+(** the elements of a precompile body *)
+Fixpoint wf_pbody (mx : Z) (l : list prog) (r : rstate) : bool :=
+  match l with [] => true | p :: t => wf mx true p r && wf_pbody mx t (rrun mx p r) end.
+
+Lemma wf_precompile mx inb body fails r :
+  wf mx inb (PPrecompile body fails) r =
+  (if mx <? r_calls r + 1 then true
+   else if r_pending (r_with_calls r (r_calls r + 1)) then true
+   else wf_pbody mx body (r_flush (r_with_calls r (r_calls r + 1)))).
+Proof.
+  simpl. destruct (mx <? r_calls r + 1); [reflexivity|].
+  destruct (r_pending (r_with_calls r (r_calls r + 1))); [reflexivity|].
+  generalize (r_flush (r_with_calls r (r_calls r + 1))). induction body as [|x t IH]; intros r0; simpl; [reflexivity|].
+  rewrite IH. reflexivity.
+Qed.
+
+Lemma rrun_precompile mx body fails r :
+  rrun mx (PPrecompile body fails) r =
+  (let r0 := r_with_calls r (r_calls r + 1) in
+   if mx <? r_calls r0 then r0 else if r_pending r0 then r0
+   else let r' := rrun_body mx body (r_flush r0) in
+        if fails then r_with_calls r0 (r_calls r') else r').
+Proof. reflexivity. Qed.
+
 Lemma rrun_bl_aux mx n : forall p r, (psize p <= n)%nat -> r_bl (rrun mx p r) = r_bl r.
 Proof.
   induction n as [|n IH]; intros p r Hn; [destruct p; simpl in Hn; lia|].
-  destruct p; try reflexivity; simpl rrun.
-  - destruct (_ <? _); reflexivity.
-  - destruct (r_accs r a); reflexivity.
-  - destruct (r_accs r a); [destruct (_ || _)|]; reflexivity.
-  - destruct (_ <? _); reflexivity.
-  - assert (Hb : forall l r0, (list_sum (map psize l) <= n)%nat -> r_bl (rrun_body mx l r0) = r_bl r0).
-    { induction l as [|x t IHl]; intros r0 Hl; [reflexivity|].
-      rewrite rrun_body_cons. simpl in Hl. rewrite IHl by lia. apply IH; lia. }
-    cbn [psize] in Hn. fold (rrun_body mx body r). destruct reverted; [reflexivity|]. apply Hb; lia.
-  - destruct (_ <? _); [reflexivity|]. destruct (r_pending _); [reflexivity|]. destruct fails; [reflexivity|].
-    fold (r_sends sends (r_flush (r_with_calls r (r_calls r + 1)))). rewrite r_sends_bl. reflexivity.
+  assert (Hb : forall l r0, (list_sum (map psize l) <= n)%nat -> r_bl (rrun_body mx l r0) = r_bl r0).
+  { induction l as [|x t IHl]; intros r0 Hl; [reflexivity|].
+    rewrite rrun_body_cons. simpl in Hl. rewrite IHl by lia. apply IH; lia. }
+  destruct p; try reflexivity.
+  - simpl rrun. destruct (_ <? _); reflexivity.
+  - simpl rrun. destruct (r_accs r a); reflexivity.
+  - simpl rrun. destruct (r_accs r a); [destruct (_ || _)|]; reflexivity.
+  - simpl rrun. destruct (_ <? _); reflexivity.
+  - simpl rrun. apply r_send_bl.
+  - cbn [psize] in Hn. rewrite rrun_frame. destruct reverted; [reflexivity|]. apply Hb; lia.
+  - cbn [psize] in Hn. rewrite rrun_precompile. cbv zeta.
+    destruct (_ <? _); [reflexivity|]. destruct (r_pending _); [reflexivity|]. destruct fails; [reflexivity|].
+    rewrite Hb by lia. reflexivity.
 Qed.
 Lemma rrun_bl mx p r : r_bl (rrun mx p r) = r_bl r.
 Proof. apply (rrun_bl_aux mx (psize p)). lia. Qed.
 
-Lemma sim_run_aux mx n : forall p s r, (psize p <= n)%nat ->
-  Inv mx s r -> wf mx p r = true -> Inv mx (run p s) (rrun mx p r).
+(** well-formed scripts keep their bank sends inside precompile bodies *)
+Lemma wf_nosend_aux mx n : forall p r, (psize p <= n)%nat -> wf mx false p r = true -> nosend p = true.
 Proof.
-  induction n as [|n IH]; intros p s r Hn HI Hwf.
+  induction n as [|n IH]; intros p r Hn Hwf; [destruct p; simpl in Hn; lia|].
+  destruct p; try reflexivity.
+  - simpl in Hwf. discriminate.
+  - cbn [psize] in Hn. cbn [nosend]. revert r Hwf Hn. induction body as [|x t IHl]; intros r Hwf Hn; [reflexivity|].
+    rewrite wf_frame_cons in Hwf. apply andb_true_iff in Hwf as [H1 H2]. simpl in Hn. simpl.
+    rewrite (IH x r) by (auto; lia). simpl. apply (IHl (rrun mx x r)); [exact H2 | lia].
+Qed.
+Lemma wf_nosend mx p r : wf mx false p r = true -> nosend p = true.
+Proof. apply (wf_nosend_aux mx (psize p)). lia. Qed.
+
+Lemma sim_run_aux mx n : forall p s r inb, (psize p <= n)%nat ->
+  Inv mx s r -> (inb = true -> cache s <> None) -> wf mx inb p r = true -> Inv mx (run p s) (rrun mx p r).
+Proof.
+  induction n as [|n IH]; intros p s r inb Hn HI Hcache Hwf.
   - destruct p; simpl in Hn; lia.
-  - destruct HI as (HR&HW&HC&HM&HB).
-    assert (Hsimple : match p with PFrame _ _ | PPrecompile _ _ => True | _ => Inv mx (run p s) (rrun mx p r) end).
-    { pose proof (sim_simple mx p s r) as H1. pose proof (run_calls_simple p s) as H2.
-      pose proof (rrun_calls_simple mx p r) as H3. pose proof (run_ok p s) as H4.
+  - pose proof HI as (HR&HW&HC&HM&HB).
+    assert (Hsimple : match p with PFrame _ _ | PPrecompile _ _ | OBankSend _ _ _ => True | _ => Inv mx (run p s) (rrun mx p r) end).
+    { pose proof (sim_simple mx inb p s r) as H1. pose proof (run_calls_simple p s) as H2.
+      pose proof (rrun_calls_simple mx p r) as H3. pose proof (run_ok p s) as H4. pose proof (nosend_simple p) as H5.
       destruct p; try exact I;
-        (split; [apply H1; assumption|]; split; [apply (H4 HW)|]; split; [congruence|];
+        (specialize (H4 H5); split; [apply H1; assumption|]; split; [apply (H4 HW)|]; split; [congruence|];
          rewrite (op_ok_cf _ _ H4 HW), rrun_bl; split; [exact HM | exact HB]). }
+    (* bodies of frames (elements are not direct body elements) and of precompile calls *)
+    assert (Hbody : forall l s0 r0, (list_sum (map psize l) <= n)%nat -> Inv mx s0 r0 ->
+              wf mx false (PFrame l false) r0 = true -> Inv mx (run_body l s0) (rrun_body mx l r0)).
+    { induction l as [|x t IHl]; intros s0 r0 Hl HI0 Hw0; [exact HI0|].
+      rewrite run_body_cons, rrun_body_cons. rewrite wf_frame_cons in Hw0. apply andb_true_iff in Hw0 as [Hwx Hwt].
+      simpl in Hl. apply IHl; [lia | apply (IH x s0 r0 false); [lia | exact HI0 | discriminate | exact Hwx] | exact Hwt]. }
+    assert (Hpbody : forall l s0 r0, (list_sum (map psize l) <= n)%nat -> Inv mx s0 r0 -> cache s0 <> None ->
+              wf_pbody mx l r0 = true -> Inv mx (run_body l s0) (rrun_body mx l r0)).
+    { induction l as [|x t IHl]; intros s0 r0 Hl HI0 Hc0 Hw0; [exact HI0|].
+      rewrite run_body_cons, rrun_body_cons. simpl in Hw0. apply andb_true_iff in Hw0 as [Hwx Hwt].
+      simpl in Hl. apply IHl; [lia | apply (IH x s0 r0 true); [lia | exact HI0 | intros _; exact Hc0 | exact Hwx]
+                              | apply run_cache; exact Hc0 | exact Hwt]. }
     destruct p; try exact Hsimple.
+    + (* OBankSend *)
+      cbn [run rrun]. simpl in Hwf. apply andb_true_iff in Hwf as [Hin Hws]. subst inb.
+      split; [apply sim_bank_send; [exact HR | apply Hcache; reflexivity | exact Hws]|].
+      split; [apply WFJ_bank_send; exact HW|]. split; [rewrite bank_send_calls; unfold r_send; destruct (_ || _); exact HC|].
+      rewrite bank_send_cf, r_send_bl. split; [exact HM | exact HB].
     + (* frame *)
-      assert (Hbody : forall l s0 r0, (list_sum (map psize l) <= n)%nat -> Inv mx s0 r0 ->
-                wf mx (PFrame l false) r0 = true -> Inv mx (run_body l s0) (rrun_body mx l r0)).
-      { induction l as [|x t IHl]; intros s0 r0 Hl HI0 Hw0; [exact HI0|].
-        rewrite run_body_cons, rrun_body_cons. rewrite wf_frame_cons in Hw0. apply andb_true_iff in Hw0 as [Hwx Hwt].
-        simpl in Hl. apply IHl; [lia | apply IH; [lia | exact HI0 | exact Hwx] | exact Hwt]. }
       cbn [psize] in Hn. rewrite run_frame, rrun_frame.
-      assert (Hw' : wf mx (PFrame body false) r = true) by exact Hwf.
-      pose proof (Hbody body s r ltac:(lia) (conj HR (conj HW (conj HC (conj HM HB)))) Hw') as HIb.
+      assert (Hw' : wf mx false (PFrame body false) r = true) by exact Hwf.
+      pose proof (Hbody body s r ltac:(lia) HI Hw') as HIb.
       destruct reverted; [|exact HIb].
-      destruct (run_body_ok body s HW) as (L & HE & HWb).
+      assert (Hns : forallb nosend body = true) by (apply (wf_nosend mx (PFrame body false) r Hw')).
+      destruct (run_body_ok body s Hns HW) as (L & HE & HWb).
       destruct HIb as (_&_&HCb&_).
-      apply (Inv_reverted mx s _ r); [exact (conj HR (conj HW (conj HC (conj HM HB)))) | exact HE | apply WFJ_unwind; exact HWb |].
+      apply (Inv_reverted mx s _ r); [exact HI | exact HE | apply WFJ_unwind; exact HWb |].
       rewrite unwind_calls. exact HCb.
-    + apply sim_precompile; [exact (conj HR (conj HW (conj HC (conj HM HB)))) | exact Hwf].
+    + (* precompile call *)
+      cbn [psize] in Hn. pose proof HW as (_&_&Hrep).
+      assert (Hok : op_ok s (run (PPrecompile body fails) s)) by (apply run_ok; reflexivity).
+      destruct (Hok HW) as (Hlen & HLE & HW').
+      rewrite wf_precompile in Hwf. rewrite rrun_precompile. cbv zeta. simpl r_calls.
+      rewrite run_precompile in *. unfold pc_shell in *.
+      set (k := length (journal s)) in *. set (s1 := precompile_snapshot s) in *.
+      assert (Hc1 : calls s1 = r_calls r + 1) by (unfold s1; rewrite snapshot_calls, HC; reflexivity).
+      rewrite HM, Hc1. rewrite HM, Hc1 in HLE, HW', Hlen.
+      assert (Hrev : forall sX, (k <= length (journal (unwind k sX)))%nat -> le s (unwind k (unwind k sX)) -> le s (unwind k sX)).
+      { intros sX Hl H. pose proof (unwind_len' k sX Hl) as Hk. rewrite <- Hk in H at 1. rewrite unwind_id in H. exact H. }
+      destruct (mx <? r_calls r + 1) eqn:Hlim.
+      * apply (Inv_reverted mx s _ r); [exact HI | apply Hrev; assumption | exact HW' | rewrite unwind_calls; exact Hc1].
+      * set (r0 := r_with_calls r (r_calls r + 1)) in *.
+        assert (HR1 : R s1 r0) by (apply R_calls, sim_snapshot; exact HR).
+        assert (HB1 : blocked (cf s1) = r_bl r0) by (unfold s1; rewrite snapshot_cf; exact HB).
+        pose proof (pending_iff s1 r0 HR1 HB1) as Hpend.
+        destruct (flush_fail s1) as [af|] eqn:Hff.
+        -- assert (Hp : r_pending r0 = true).
+           { destruct (r_pending r0); [reflexivity|]. destruct Hpend as [_ H]. discriminate (H eq_refl). }
+           rewrite Hp.
+           apply (Inv_reverted mx s _ r); [exact HI | apply Hrev; assumption | exact HW' | rewrite unwind_calls; exact Hc1].
+        -- assert (Hp : r_pending r0 = false) by (apply Hpend; reflexivity).
+           rewrite Hp in *.
+           assert (Hrep1 : repaired (cf s1) = true) by (unfold s1; rewrite snapshot_cf; exact Hrep).
+           destruct (sim_flush s1 r0 HR1 Hrep1) as [HRF HCl]. set (sF := commit_cache s1) in *.
+           assert (HcF : cache sF <> None) by (unfold sF, commit_cache; sdb_simp; discriminate).
+           assert (HIF : Inv mx sF (r_flush r0)).
+           { split; [exact HRF|]. split; [apply WFJ_commit_cache, WFJ_snapshot; exact HW|].
+             split; [exact Hc1|]. change (cf sF) with (cf s1). unfold s1. rewrite snapshot_cf. split; [exact HM | exact HB]. }
+           pose proof (Hpbody body sF (r_flush r0) ltac:(lia) HIF HcF Hwf) as HI2.
+           set (s2 := run_body body sF) in *. set (r2 := rrun_body mx body (r_flush r0)) in *.
+           destruct fails; [|exact HI2].
+           destruct HI2 as (_&_&HC2&_).
+           pose proof (Inv_reverted mx s (unwind k s2) r (r_calls r2) HI (Hrev s2 Hlen HLE) HW'
+                         ltac:(rewrite unwind_calls; exact HC2)) as (A1&A2&A3&A4&A5).
+           split; [eapply R_req; [exact A1|]; repeat split; auto|]. split; [exact A2|]. split; [exact A3|].
+           split; [exact A4 | exact A5].
 Qed.
 
-Theorem sim_run mx p s r : Inv mx s r -> wf mx p r = true -> Inv mx (run p s) (rrun mx p r).
-Proof. apply (sim_run_aux mx (psize p)). lia. Qed.
+Theorem sim_run mx p s r : Inv mx s r -> wf mx false p r = true -> Inv mx (run p s) (rrun mx p r).
+Proof. intros HI Hwf. apply (sim_run_aux mx (psize p) p s r false); [lia | exact HI | discriminate | exact Hwf]. Qed.
 
 (** ---- the initial state ---- *)
 Lemma acct_eta (x : acct) : {| a_bal := a_bal x; a_nonce := a_nonce x; a_code := a_code x |} = x.
@@ -343,7 +436,7 @@ Proof.
     split; [|split]; simpl; try discriminate; [reflexivity | intros k H; contradiction].
   - intros _ _. split; [reflexivity|]. intros o Ho. rewrite Hl in Ho.
     destruct (accs t a) as [x|]; [|discriminate]. inversion Ho; subst. intros k v H. discriminate.
-  - intros _. reflexivity.
+  - reflexivity.
 Qed.
 
 (** ---- (P5) the final commit writes the reference's final state ---- *)
@@ -390,11 +483,12 @@ Proof. intros [A B]. split; intros; symmetry; auto. Qed.
 Lemma store_eq_trans t1 t2 t3 : store_eq t1 t2 -> store_eq t2 t3 -> store_eq t1 t3.
 Proof. intros [A B] [A' B']. split; intros; [rewrite A; apply A' | rewrite B; apply B']. Qed.
 
+
 (** ======================= the theorems ======================= *)
 
 (** Frame atomicity: for every well-formed script, the state committed by the two-layer model
-    (journal + dirty counts + object cache over tx store / cache store) is the final state of the
-    copy-on-frame reference; so are the journaled tx data (logs, refund, access list). *)
+    is the final state of the copy-on-frame reference; so are the journaled tx data; the final
+    Commit fails exactly when the reference still has to credit a blocked account. *)
 Theorem frame_atomicity mx bl t0 body :
   wf_body mx body (r_init bl t0) = true ->
   let s := run (PFrame body false) (init {| repaired := true; maxc := mx; blocked := bl |} t0) in
@@ -411,63 +505,99 @@ Proof.
   - destruct H as [H _]. symmetry. apply H. reflexivity.
 Qed.
 
-(** every program point of every well-formed script (at any nesting depth: entering a frame
-    does not change the state, and the ops of its body are steps) *)
-Inductive reach (mx : Z) (bl : list addr) (t0 : store) : sdb -> rstate -> Prop :=
-| reach_init : reach mx bl t0 (init {| repaired := true; maxc := mx; blocked := bl |} t0) (r_init bl t0)
-| reach_step p s r : reach mx bl t0 s r -> wf mx p r = true -> reach mx bl t0 (run p s) (rrun mx p r).
+(** every program point of every well-formed script, at any depth.  [inb = true]: the point is directly
+    inside a precompile body (entered after a successful OnRunStart); entering a frame does not change
+    the state, its elements are steps with [inb = false] *)
+Inductive reach (mx : Z) (bl : list addr) (t0 : store) : bool -> sdb -> rstate -> Prop :=
+| reach_init : reach mx bl t0 false (init {| repaired := true; maxc := mx; blocked := bl |} t0) (r_init bl t0)
+| reach_step inb p s r : reach mx bl t0 inb s r -> wf mx inb p r = true -> reach mx bl t0 inb (run p s) (rrun mx p r)
+| reach_frame inb s r : reach mx bl t0 inb s r -> reach mx bl t0 false s r
+| reach_enter inb s r : reach mx bl t0 inb s r ->
+    (mx <? r_calls r + 1) = false -> r_pending (r_with_calls r (r_calls r + 1)) = false ->
+    reach mx bl t0 true (commit_cache (precompile_snapshot s)) (r_flush (r_with_calls r (r_calls r + 1))).
 
-Lemma reach_Inv mx bl t0 s r : reach mx bl t0 s r -> Inv mx s r.
-Proof. induction 1; [apply Inv_init | apply sim_run; assumption]. Qed.
-
-Lemma op_ok_txs s s' : op_ok s s' -> WFJ s -> txs s' = txs s.
+Lemma reach_Inv' mx bl t0 inb s r : reach mx bl t0 inb s r -> Inv mx s r /\ (inb = true -> cache s <> None).
 Proof.
-  intros H HW. destruct (H HW) as (_&(_&T&_)&_). rewrite T. unfold unwind. symmetry. apply unwind_k_txs.
+  induction 1 as [|inb p s r H [IH1 IH2] Hwf | inb s r H [IH1 IH2] | inb s r H [IH1 IH2] Hlim Hp].
+  - split; [apply Inv_init | discriminate].
+  - split; [apply (sim_run_aux mx (psize p) p s r inb); auto|].
+    intros E. apply run_cache. apply IH2; exact E.
+  - split; [exact IH1 | discriminate].
+  - pose proof IH1 as (HR&HW&HC&HM&HB). pose proof HW as (_&_&Hrep).
+    set (r0 := r_with_calls r (r_calls r + 1)). set (s1 := precompile_snapshot s).
+    assert (HR1 : R s1 r0) by (apply R_calls, sim_snapshot; exact HR).
+    assert (Hrep1 : repaired (cf s1) = true) by (unfold s1; rewrite snapshot_cf; exact Hrep).
+    destruct (sim_flush s1 r0 HR1 Hrep1) as [HRF _].
+    split; [|intros _; unfold commit_cache; sdb_simp; discriminate].
+    split; [exact HRF|]. split; [apply WFJ_commit_cache, WFJ_snapshot; exact HW|].
+    split; [change (calls (commit_cache s1)) with (calls s1); unfold s1; rewrite snapshot_calls, HC; reflexivity|].
+    change (cf (commit_cache s1)) with (cf s1). unfold s1. rewrite snapshot_cf. split; [exact HM | exact HB].
+Qed.
+Lemma reach_Inv mx bl t0 inb s r : reach mx bl t0 inb s r -> Inv mx s r.
+Proof. intros H. apply (reach_Inv' _ _ _ _ _ _ H). Qed.
+
+Lemma wf_any_nosend mx inb p r : wf mx inb p r = true -> (exists f t a, p = OBankSend f t a) \/ nosend p = true.
+Proof.
+  intros H. destruct p; try (right; reflexivity).
+  - left; eauto.
+  - right. apply (wf_nosend mx (PFrame body reverted) r). exact H.
 Qed.
 
-Lemma reach_txs mx bl t0 s r : reach mx bl t0 s r -> txs s = t0.
+Lemma reach_txs mx bl t0 inb s r : reach mx bl t0 inb s r -> txs s = t0.
 Proof.
-  induction 1; [reflexivity|]. rewrite (op_ok_txs s (run p s) (run_ok p s)); [assumption|].
-  apply (reach_Inv _ _ _ _ _ H).
+  induction 1 as [|inb p s r H IH Hwf | | inb s r H IH]; [reflexivity | | assumption |].
+  - destruct (reach_Inv _ _ _ _ _ _ H) as (_&HW&_).
+    destruct (wf_any_nosend mx inb p r Hwf) as [(f&t&a&->)|Hns].
+    + cbn [run]. unfold bank_send. destruct (cache s); [|exact IH]. destruct (_ || _); [exact IH|].
+      rewrite !set_balance_txs. exact IH.
+    + rewrite (op_ok_txs s (run p s) (run_ok p s Hns) HW). exact IH.
+  - change (txs (commit_cache (precompile_snapshot s))) with (txs (precompile_snapshot s)). rewrite snapshot_txs. exact IH.
 Qed.
 
-(** Reads see the reference: at every reachable program point GetState returns the reference's
-    slot value and GetCommittedState the value of the slot when the transaction started. *)
-Theorem reads_see_reference_reach mx bl t0 s r a k :
-  reach mx bl t0 s r ->
+(** Reads see the reference: at every program point GetState returns the reference's slot value and
+    GetCommittedState the value of the slot when the transaction started. *)
+Theorem reads_see_reference_reach mx bl t0 inb s r a k :
+  reach mx bl t0 inb s r ->
   read_vals s a k = match r_accs r a with Some _ => (r_stor r a k, stor t0 a k) | None => (0, 0) end.
 Proof.
-  intros H. destruct (reach_Inv _ _ _ _ _ H) as (HR&_). rewrite (reads_see_reference s r a k HR).
-  rewrite (reach_txs _ _ _ _ _ H). reflexivity.
+  intros H. destruct (reach_Inv _ _ _ _ _ _ H) as (HR&_). rewrite (reads_see_reference s r a k HR).
+  rewrite (reach_txs _ _ _ _ _ _ H). reflexivity.
 Qed.
 
-Lemma wf_sends_firstn i : forall sends r, wf_sends sends r = true -> wf_sends (firstn i sends) r = true.
+(** Balance views.  (1) At every program point the reference knows what the bank module holds for
+    every account.  (2) Right after OnRunStart that is, for every account, its EVM balance in unibi
+    (0 for self-destructed ones); (3) a bank send re-establishes this for both parties; EVM writes made
+    by the body in between do not touch the bank. *)
+Theorem bank_view_tracked mx bl t0 inb s r a :
+  reach mx bl t0 inb s r -> bank_bal (cur_store s) a = r_base r a.
+Proof. intros H. destruct (reach_Inv _ _ _ _ _ _ H) as (HR&_). apply (R_base s r HR a). Qed.
+
+Theorem views_agree_after_on_run_start mx bl t0 inb s r a o :
+  reach mx bl t0 inb s r ->
+  (mx <? r_calls r + 1) = false -> r_pending (r_with_calls r (r_calls r + 1)) = false ->
+  let s' := commit_cache (precompile_snapshot s) in
+  lookup s' a = Some o -> suicided o = false -> bank_bal (cur_store s') a = to_native (bal o).
 Proof.
-  induction i as [|i IH]; intros [|x t] r H; simpl in *; auto.
-  apply andb_true_iff in H as [H1 H2]. rewrite H1. simpl. apply IH; exact H2.
+  intros H Hlim Hp s' Hl Hs.
+  pose proof (reach_enter _ _ _ _ _ _ H Hlim Hp) as H'. destruct (reach_Inv _ _ _ _ _ _ H') as (HR&_).
+  apply (views_of_clean s' _ HR); [|exact Hl | exact Hs].
+  intros x. unfold s', commit_cache, flush_dirt. sdb_simp. destruct (dirt (precompile_snapshot s) x); [right|left]; reflexivity.
 Qed.
 
-(** Balance views: inside a precompile body — after OnRunStart and after every bank send — and
-    hence at its successful return, the StateDB balance of every account that has not
-    self-destructed, converted to unibi, IS the bank balance on the cache context. *)
-Theorem balance_views_agree mx bl t0 s r sends fails i :
-  reach mx bl t0 s r -> wf mx (PPrecompile sends fails) r = true -> (mx <? calls s + 1) = false ->
-  r_pending (r_with_calls r (calls s + 1)) = false ->
-  views (run_sends (firstn i sends) (commit_cache (precompile_snapshot s))).
+Theorem views_agree_after_send s c f t amt x :
+  cache s = Some c -> (amt <=? 0) || (bank_bal c f <? amt) = false -> x = f \/ x = t ->
+  let s' := bank_send s f t amt in
+  exists o, lookup s' x = Some o /\ bank_bal (cur_store s') x = to_native (bal o).
 Proof.
-  intros Hre Hwf Hlim Hnp. destruct (reach_Inv _ _ _ _ _ Hre) as (HR&HW&HC&HM&HB). pose proof HW as (_&_&Hrep).
-  rewrite wf_precompile in Hwf. rewrite <- HC, Hlim, Hnp in Hwf.
-  assert (HR1 : R (precompile_snapshot s) (r_with_calls r (calls s + 1))) by (apply R_calls, sim_snapshot; exact HR).
-  destruct (sim_flush _ _ HR1 ltac:(rewrite snapshot_cf; exact Hrep)) as [HRF HCl].
-  eapply (sim_sends (firstn i sends) _ (r_flush (r_with_calls r (calls s + 1)))).
-  - exact HRF.
-  - eapply views_of_clean; eauto.
-  - unfold commit_cache; sdb_simp; discriminate.
-  - change (cf (commit_cache (precompile_snapshot s))) with (cf (precompile_snapshot s)). rewrite snapshot_cf. exact HB.
-  - apply wf_sends_firstn; exact Hwf.
+  intros Hc Hg Hx s'. unfold s'. rewrite (bank_send_sync s c f t amt Hc Hg). unfold sync.
+  rewrite !set_balance_cur. destruct (Z.eq_dec x t) as [->|Hne].
+  - eexists. split; [apply set_balance_lookup_same|]. simpl. rewrite ?set_balance_cur. symmetry. apply to_native_to_wei.
+  - destruct Hx as [-> | ->]; [|contradiction].
+    eexists. split; [rewrite set_balance_lookup_other by assumption; apply set_balance_lookup_same|].
+    simpl. symmetry. apply to_native_to_wei.
 Qed.
 
-(** what an OTouch right after the return reads *)
+(** what an OTouch reads when the views agree *)
 Lemma touch_reads_views s a :
   views s -> (forall o, lookup s a = Some o -> suicided o = false) ->
   match out (touch s a) with
@@ -485,24 +615,23 @@ Qed.
     pre-run flush fails (a blocked module account would have to be credited), fails and leaves
     (a refinement of) the state it started from — in particular the part of the flush that was
     already written is undone; what would be committed is unchanged.  Every call counts. *)
-Theorem refused_call mx s r sends fails :
+Theorem refused_call mx s r body fails :
   Inv mx s r -> (mx < calls s + 1 \/ r_pending (r_with_calls r (calls s + 1)) = true) ->
-  le s (precompile_call s sends fails) /\
-  calls (precompile_call s sends fails) = calls s + 1 /\
-  store_eq (commit (precompile_call s sends fails)) (commit s).
+  let s' := run (PPrecompile body fails) s in
+  le s s' /\ calls s' = calls s + 1 /\ store_eq (commit s') (commit s).
 Proof.
-  intros HI Href. pose proof HI as (HR&HW&HC&HM&HB). pose proof HW as (_&_&Hrep).
-  assert (Hwf : wf mx (PPrecompile sends fails) r = true).
+  intros HI Href s'. pose proof HI as (HR&HW&HC&HM&HB). pose proof HW as (_&_&Hrep).
+  assert (Hwf : wf mx false (PPrecompile body fails) r = true).
   { rewrite wf_precompile. rewrite <- HC. destruct (mx <? calls s + 1) eqn:E; [reflexivity|].
     destruct Href as [H|H]; [apply Z.ltb_ge in E; lia | rewrite H; reflexivity]. }
-  pose proof (sim_precompile mx s r sends fails HI Hwf) as (HR'&(_&_&Hrep')&HC'&_).
-  assert (Hr0 : rrun mx (PPrecompile sends fails) r = r_with_calls r (calls s + 1)).
+  pose proof (sim_run mx (PPrecompile body fails) s r HI Hwf) as (HR'&(_&_&Hrep')&HC'&_).
+  assert (Hr0 : rrun mx (PPrecompile body fails) r = r_with_calls r (calls s + 1)).
   { rewrite rrun_precompile. cbv zeta. simpl r_calls. rewrite <- HC.
     destruct (mx <? calls s + 1) eqn:E; [reflexivity|].
     destruct Href as [H|H]; [apply Z.ltb_ge in E; lia | rewrite H; reflexivity]. }
-  rewrite Hr0 in HR', HC'. simpl in HC'.
-  assert (Hlen : length (journal (precompile_call s sends fails)) = length (journal s)).
-  { unfold precompile_call. rewrite HM, snapshot_calls.
+  rewrite Hr0 in HR', HC'. simpl in HC'. fold s' in HR', HC', Hrep'.
+  assert (Hlen : length (journal s') = length (journal s)).
+  { unfold s'. rewrite run_precompile. unfold pc_shell. rewrite HM, snapshot_calls.
     set (n := length (journal s)). set (s1 := precompile_snapshot s).
     assert (J1 : journal s1 = snap_entry s :: journal s) by apply snapshot_journal.
     destruct (mx <? calls s + 1) eqn:E.
@@ -514,48 +643,69 @@ Proof.
       destruct (flush_fail s1) as [af|]; [|rewrite (Hp eq_refl) in H; discriminate].
       apply unwind_len. change (journal (commit_cache_partial af s1)) with (journal s1). rewrite J1. simpl. unfold n. lia. }
   split; [|split; [exact HC'|]].
-  - pose proof (precompile_call_ok s sends fails HW) as (_ & HLE & _).
+  - pose proof (run_ok (PPrecompile body fails) s eq_refl HW) as (_ & HLE & _). fold s' in HLE.
     rewrite <- Hlen in HLE at 1. rewrite unwind_id in HLE. exact HLE.
   - eapply store_eq_trans; [apply (commit_final _ _ HR' Hrep')|].
     apply store_eq_sym. eapply store_eq_trans; [apply (commit_final s r HR Hrep)|].
     split; intros; reflexivity.
 Qed.
 
-Theorem call_limit mx s r sends fails :
+Theorem call_limit mx s r body fails :
   Inv mx s r -> mx < calls s + 1 ->
-  le s (precompile_call s sends fails) /\
-  calls (precompile_call s sends fails) = calls s + 1 /\
-  store_eq (commit (precompile_call s sends fails)) (commit s).
-Proof. intros HI H. apply (refused_call mx s r sends fails HI). left; exact H. Qed.
+  let s' := run (PPrecompile body fails) s in
+  le s s' /\ calls s' = calls s + 1 /\ store_eq (commit s') (commit s).
+Proof. intros HI H. apply (refused_call mx s r body fails HI). left; exact H. Qed.
 
-(** the counter counts every precompile call of the script, reverted or not *)
-Fixpoint ncalls (p : prog) : nat :=
-  match p with
-  | PFrame body _ => list_sum (map ncalls body)
-  | PPrecompile _ _ => 1
-  | _ => 0
-  end.
-
-Lemma precompile_call_calls s sends fails : calls (precompile_call s sends fails) = calls s + 1.
+(** the counter counts every precompile call that is reached; a refused call's body is not run *)
+Theorem calls_monotone p s : calls s <= calls (run p s).
 Proof.
-  unfold precompile_call. destruct (_ <? _); [rewrite unwind_calls; apply snapshot_calls|].
-  destruct (flush_fail _); [rewrite unwind_calls; apply snapshot_calls|].
-  destruct fails; rewrite ?unwind_calls, run_sends_calls; apply snapshot_calls.
+  assert (H : forall n p s, (psize p <= n)%nat -> calls s <= calls (run p s)).
+  { induction n as [|n IH]; intros q s0 Hn; [destruct q; simpl in Hn; lia|].
+    pose proof (run_calls_simple q s0) as Hs.
+    assert (Hb : forall l s1, (list_sum (map psize l) <= n)%nat -> calls s1 <= calls (run_body l s1)).
+    { induction l as [|x t IHl]; intros s1 Hl; [simpl; lia|]. rewrite run_body_cons. simpl in Hl.
+      specialize (IH x s1 ltac:(lia)). specialize (IHl (run x s1) ltac:(lia)). lia. }
+    destruct q; try (rewrite Hs; lia).
+    - cbn [psize] in Hn. rewrite run_frame. destruct reverted; rewrite ?unwind_calls; apply Hb; lia.
+    - cbn [psize] in Hn. rewrite run_precompile. unfold pc_shell.
+      destruct (_ <? _); [rewrite unwind_calls, snapshot_calls; lia|].
+      destruct (flush_fail _); [rewrite unwind_calls; change (calls (commit_cache_partial a (precompile_snapshot s0))) with (calls (precompile_snapshot s0)); rewrite snapshot_calls; lia|].
+      specialize (Hb body (commit_cache (precompile_snapshot s0)) ltac:(lia)).
+      change (calls (commit_cache (precompile_snapshot s0))) with (calls (precompile_snapshot s0)) in Hb.
+      rewrite snapshot_calls in Hb. destruct fails; rewrite ?unwind_calls; lia. }
+  apply (H (psize p)). lia.
+Qed.
+Theorem every_call_counts body fails s : calls s + 1 <= calls (run (PPrecompile body fails) s).
+Proof.
+  rewrite run_precompile. unfold pc_shell.
+  destruct (_ <? _); [rewrite unwind_calls, snapshot_calls; lia|].
+  destruct (flush_fail _); [rewrite unwind_calls; change (calls (commit_cache_partial a (precompile_snapshot s))) with (calls (precompile_snapshot s)); rewrite snapshot_calls; lia|].
+  assert (Hb : forall l s1, calls s1 <= calls (run_body l s1)).
+  { induction l as [|x t IHl]; intros s1; [simpl; lia|]. rewrite run_body_cons.
+    pose proof (calls_monotone x s1). specialize (IHl (run x s1)). lia. }
+  specialize (Hb body (commit_cache (precompile_snapshot s))).
+  change (calls (commit_cache (precompile_snapshot s))) with (calls (precompile_snapshot s)) in Hb.
+  rewrite snapshot_calls in Hb. destruct fails; rewrite ?unwind_calls; lia.
 Qed.
 
-Lemma run_calls_aux n : forall p s, (psize p <= n)%nat -> calls (run p s) = calls s + Z.of_nat (ncalls p).
+(** A reverted frame — whatever it contains: EVM writes, nested frames, precompile calls whose bodies
+    move bank coins AND write EVM state (FunToken's ERC20 mint / burn / transfer) — is a no-op for what
+    gets committed, and the state after it simulates the same reference state (up to the call
+    counter), so every continuation commits the same as if the frame had not been there (as long as the
+    call limit is not reached).  This is what the driver that calls the REAL FunToken methods checks:
+    the script with its reverted frames erased must commit the same state. *)
+Theorem reverted_frame_noop mx s r body :
+  Inv mx s r -> wf mx false (PFrame body true) r = true ->
+  let s' := run (PFrame body true) s in
+  le s s' /\ store_eq (commit s') (commit s) /\ Inv mx s' (r_with_calls r (calls s')).
 Proof.
-  induction n as [|n IH]; intros p s Hn; [destruct p; simpl in Hn; lia|].
-  pose proof (run_calls_simple p s) as H.
-  destruct p; try (simpl ncalls; rewrite H; lia).
-  - assert (Hb : forall l s0, (list_sum (map psize l) <= n)%nat ->
-                 calls (run_body l s0) = calls s0 + Z.of_nat (list_sum (map ncalls l))).
-    { induction l as [|x t IHl]; intros s0 Hl; [simpl; lia|].
-      rewrite run_body_cons. simpl in Hl. rewrite IHl by lia. rewrite (IH x) by lia. simpl. lia. }
-    cbn [psize] in Hn. rewrite run_frame. simpl ncalls.
-    destruct reverted; rewrite ?unwind_calls; apply Hb; lia.
-  - simpl run. rewrite precompile_call_calls. simpl. lia.
+  intros HI Hwf s'. pose proof HI as (HR&HW&_). pose proof HW as (_&_&Hrep).
+  pose proof (sim_run mx (PFrame body true) s r HI Hwf) as HI'.
+  rewrite rrun_frame in HI'. fold s' in HI'. pose proof HI' as (HR'&(_&_&Hrep')&HC'&_). simpl in HC'.
+  assert (Hns : forallb nosend body = true) by (apply (wf_nosend mx (PFrame body true) r Hwf)).
+  destruct (reverted_frame_invisible body s Hns HW) as [HL _]. fold s' in HL.
+  split; [exact HL|]. split.
+  - eapply store_eq_trans; [apply (commit_final _ _ HR' Hrep')|].
+    apply store_eq_sym. eapply store_eq_trans; [apply (commit_final s r HR Hrep)|]. split; intros; reflexivity.
+  - rewrite HC'. exact HI'.
 Qed.
-
-Theorem run_counts_calls p s : calls (run p s) = calls s + Z.of_nat (ncalls p).
-Proof. apply (run_calls_aux (psize p)). lia. Qed.
